@@ -28,7 +28,9 @@ def K : PCtx :=
     loc := fun n => if n = "g" then some 2 else none,
     consts := [],
     nlocals := 0,
-    hi := fun _ => 0 }
+    hi := fun _ => 0,
+    gnames := [],
+    dep := 0 }
 
 theorem lookup_g (n : String) (s : Symbol) (h : tbl.lookup "main" n = .ok s) : n = "g" ∧ s = sym := by
   unfold SymTab.lookup tbl at h
@@ -151,6 +153,8 @@ theorem rep : Rep K σ mem where
     unfold mem
     rw [Mem.read_write_other _ _ _ _ (by omega), Mem.read_write_other _ _ _ _ (by omega)]
     exact Mem.read_zero _
+  gvis := by intro n hn; simp [K] at hn
+  depth := rfl
 
 /-- `g := g + 1`. -/
 def stmt : X.Stmt := .assign "g" (.bin .plus (.name "g") (.num 1))
